@@ -270,7 +270,7 @@ impl Model {
     pub fn expected_links(&self) -> Vec<Links> {
         let mut out: Vec<Links> = vec![[None; 5]; self.n.len()];
         let id = |s: usize| Some(self.n[s].id);
-        let mut do_list = |list: &Vec<usize>, out: &mut Vec<Links>| {
+        let do_list = |list: &Vec<usize>, out: &mut Vec<Links>| {
             for (i, &c) in list.iter().enumerate() {
                 if i > 0 {
                     out[c][1] = id(list[i - 1]);
